@@ -2542,7 +2542,8 @@ class SourceFinder(object):
             disable=not progress,
         ) as pbar:
             for i, g in enumerate(island_groups):
-                srcs = self._refit_islands(g, stage, outerclip, istart=i)
+                srcs = self._refit_islands(
+                    g, stage, outerclip, istart=i*group_size)
                 # update bar as each individual island is fit
                 pbar.update(1)
                 sources.extend(srcs)
